@@ -144,6 +144,26 @@ func VerifP_C07_BodyCandidates(mode int) {
 		verifAssert(cs.List[k-1].Label <= cs.List[k].Label, "C07:sorted-by-name")
 	}
 	verifAssert(cs.IsComplete, "C06:complete-below-limit")
+	// accepting a candidate: the item it names, written into the body, makes validation report
+	// no unexpected attribute/block and no surplus block that was not reported before
+	surplus := func(text string) int {
+		f2 := verifParseHCL(text, "body.tf")
+		d2 := verifDecoder(bs, map[string]*hcl.File{"body.tf": f2})
+		d2.pathCtx.Validators = verifValidators()
+		diags, err := d2.ValidateFile(context.Background(), "body.tf")
+		if err != nil {
+			return 0
+		}
+		return verifCountDiags(diags, "Unexpected attribute") + verifCountDiags(diags, "Unexpected block") + verifCountDiags(diags, "Too many blocks")
+	}
+	before := surplus(src)
+	for _, c := range cs.List {
+		item := c.Label + " = \"x\"\n"
+		if c.Kind == lang.BlockCandidateKind {
+			item = c.Label + " {\n}\n"
+		}
+		verifAssert(surplus(src+item) <= before, "C07:accepted-candidate-is-neither-unexpected-nor-surplus["+c.Label+"]")
+	}
 	verifReach("end")
 }
 
